@@ -20,9 +20,23 @@ Sources (pinned tree), transcribed line by line:
 
 Numbers: every quantity is an exact rational (`Rat`); the float rounding of the implementation is not modelled (the
 correspondence run compares with a derived forward error bound).  Images are `List Rat` in `begin_all()` order (z, y, x).
-The objective function enters `OSSPSReconstruction` only through five things (`Objective`); `Problem.toObjective` builds them
-from an explicit system matrix.  Not modelled: randomised subset order (C06), inter-iteration / post filters, `write_update_image`,
-reading the denominator from file, bin normalisation other than 1, TOF, `zero_seg0_end_planes`, 32-bit overflow.
+The objective function enters `OSSPSReconstruction` only through a handful of things (`Objective`); `Problem.toObjective` builds
+them from an explicit system matrix (one row per bin, TOF bins included), the normalisation factor of every bin
+(`BinNormalisationFromProjData::apply/undo` = multiply / divide by the factor), the `zero_seg0_end_planes` flag of every bin,
+`use_subset_sensitivities` and, for TOF data without `use time-of-flight sensitivities`, the rows of the non-TOF matrix the
+sensitivity is back projected with.  Further sources transcribed:
+* `distributable.cxx: get_viewgrams` (:166: mult viewgrams = `undo(ones)`, `zero_end_sinograms` of data, additive term, mult),
+  `RPC_process_related_viewgrams_gradient` (`- mult` instead of `- 1`), `RPC_process_related_viewgrams_sensitivity_computation`;
+* `PoissonLogLikelihoodWithLinearModelForMeanAndProjData::actual_subsets_are_approximately_balanced` (:494) and the refusal of
+  unbalanced subsets without subset sensitivities in `PoissonLogLikelihoodWithLinearModelForMean::set_up` (:275);
+* `OSSPSReconstruction::set_up`, branch `precomputed denominator := <file>` (:261-272) with
+  `DiscretisedDensity::actual_has_same_characteristics` (DiscretisedDensity.inl:71) and
+  `DiscretisedDensityOnCartesianGrid::actual_has_same_characteristics` (DiscretisedDensityOnCartesianGrid.inl:73);
+* `IterativeReconstruction::end_of_iteration_processing` (IterativeReconstruction.cxx:538: inter-iteration filter every
+  `inter_iteration_filter_interval` sub-iterations, post filter after the last one — both AFTER the clamp of `update_estimate`);
+  `ArrayFilter1DUsingConvolution::do_it` (zero boundary) for the 3-tap separable filters the harness uses.
+Not modelled: the random permutation of `randomise_subset_order` (the subset used is data; that every full iteration uses a
+permutation is C06's and the harness oracle's), `write_update_image`, 32-bit overflow.
 Core Lean only.
 -/
 namespace StirVerif.C08
@@ -112,6 +126,9 @@ structure Objective where
   curvDepends : Bool
   /-- `fill_nonidentifiable_target_parameters(·, 0)` -/
   fillNonIdent : Img → Img
+  /-- `objective_function_sptr->set_up(target)` succeeds (IterativeReconstruction.cxx:485); for the Poisson log-likelihood:
+      the subsets are balanced or subset sensitivities are used -/
+  setUpOk : Bool := true
 
 /-- the mutable state: the image estimate, `*precomputed_denominator_ptr`, `subiteration_num` -/
 structure State where
@@ -130,6 +147,7 @@ def setUp (p : Params) (obj : Objective) (start : Int) (target : Img) : Option (
   else if p.numSubiterations < 1 then none
   else if p.startSubset < 0 || p.startSubset ≥ p.numSubsets then none
   else if start < 1 then none
+  else if !obj.setUpOk then none
   else if p.alpha ≤ 0 then none
   else if p.gamma < 0 then none
   else if !obj.priorParabolic then none
@@ -202,6 +220,100 @@ def run (p : Params) (obj : Objective) (start : Int) (target : Img) : Option Sta
   | none => none
   | some (img, d) => some (reconstruct p obj start img d)
 
+/-! ## `precomputed denominator := <file>` -/
+
+/-- what `has_same_characteristics` looks at: origin (z,y,x), the regular index range (min, max per dimension), grid spacing -/
+structure Chars where
+  origin : List Rat
+  range : List Int
+  spacing : List Rat
+  deriving Repr, Inhabited, DecidableEq
+
+/-- `norm(a - b)²` of two coordinates -/
+def normSq (a b : List Rat) : Rat := (List.zipWith (fun x y => (x - y) * (x - y)) a b).foldl (· + ·) 0
+
+/-- the double `1.E-2` (DiscretisedDensity.inl:80) and the float `1.E-4F` (DiscretisedDensityOnCartesianGrid.inl:85) -/
+def originTolerance : Rat := 5764607523034235 / 576460752303423488
+def spacingTolerance : Rat := 13743895 / 137438953472
+
+/-- `this->has_same_characteristics(other)` for two `VoxelsOnCartesianGrid<float>` (same type):
+    `norm(other.origin - this.origin) > 1.E-2` → no; index ranges differ → no;
+    `norm(other.spacing - this.spacing) > 1.E-4F * norm(this.spacing)` → no.  (Norms compared through their squares.) -/
+def sameCharacteristics (this other : Chars) : Bool :=
+  if normSq other.origin this.origin > originTolerance * originTolerance then false
+  else if other.range != this.range then false
+  else if normSq other.spacing this.spacing
+            > spacingTolerance * spacingTolerance * normSq this.spacing (this.spacing.map fun _ => 0) then false
+  else true
+
+/-- the file named by `precomputed denominator`: `read_from_file` throws, or an image -/
+inductive DenomFile where
+  | unreadable
+  | image (chars : Chars) (values : Img)
+  deriving Repr, Inhabited
+
+/-- `OSSPSReconstruction::set_up` with `precomputed denominator := <file>` (l.261-272): all the checks of `setUp`, then the file
+    is read and must have the characteristics of the target image; nothing is computed, the file's values are the denominator. -/
+def setUpFile (p : Params) (obj : Objective) (start : Int) (targetChars : Chars) (file : DenomFile) (target : Img) :
+    Option (Img × Img) :=
+  match setUp p obj start target with
+  | none => none
+  | some (target', _) =>
+    match file with
+    | .unreadable => none
+    | .image ch values => if sameCharacteristics ch targetChars then some (target', values) else none
+
+/-! ## inter-iteration and post filter -/
+
+/-- the image processors of `IterativeReconstruction` / `Reconstruction`: `inter_iteration_filter_ptr` with its interval,
+    `post_filter_sptr` -/
+structure Filters where
+  interInterval : Int := 0
+  inter : Option (Img → Img) := none
+  post : Option (Img → Img) := none
+
+/-- `if (inter_iteration_filter_interval > 0 && !is_null_ptr(inter_iteration_filter_ptr)
+        && subiteration_num % inter_iteration_filter_interval == 0) inter_iteration_filter_ptr->apply(current_estimate)` -/
+def applyInterFilter (f : Filters) (k : Int) (img : Img) : Img :=
+  match f.inter with
+  | some g => if f.interInterval > 0 && k.tmod f.interInterval == 0 then g img else img
+  | none => img
+
+/-- `if (subiteration_num == num_subiterations && !is_null_ptr(post_filter_sptr)) post_filter_sptr->apply(current_estimate)` -/
+def applyPostFilter (f : Filters) (numSubiterations k : Int) (img : Img) : Img :=
+  match f.post with
+  | some g => if k == numSubiterations then g img else img
+  | none => img
+
+/-- `IterativeReconstruction::end_of_iteration_processing` (:538), the part that changes the image: inter-iteration filter,
+    then post filter.  Nothing is clamped afterwards. -/
+def endOfIteration (f : Filters) (numSubiterations k : Int) (img : Img) : Img :=
+  applyPostFilter f numSubiterations k (applyInterFilter f k img)
+
+/-- one turn of the loop of `reconstruct(target)` with filters: `update_estimate`, `end_of_iteration_processing`, `++` -/
+def stepF (f : Filters) (p : Params) (obj : Objective) (start : Int) (s : State) : State :=
+  let s' := updateEstimate p obj start s
+  { s' with image := endOfIteration f p.numSubiterations s'.k s'.image, k := s'.k + 1 }
+
+def loopF (f : Filters) (p : Params) (obj : Objective) (start : Int) : Nat → State → State
+  | 0, s => s
+  | n + 1, s => loopF f p obj start n (stepF f p obj start s)
+
+/-- one pass of `ArrayFilter1DUsingConvolution::do_it` (zero boundary condition, ArrayFilter1DUsingConvolution.cxx:137) with
+    the three taps `c[-1], c[0], c[1]` along an axis of `len` entries and stride `stride` of an image flattened in z,y,x order:
+    `out[i] = Σ_j c[j]·in[i-j]` over the `i-j` inside the line -/
+def conv3Axis (len stride : Nat) (cm c0 cp : Rat) (x : Img) : Img :=
+  (List.range x.length).map fun j =>
+    let pos := (j / stride) % len
+    let prev := if 1 ≤ pos then x.getD (j - stride) 0 else 0
+    let next := if pos + 1 < len then x.getD (j + stride) 0 else 0
+    cp * prev + c0 * x.getD j 0 + cm * next
+
+/-- `SeparableConvolutionImageFilter` with the same three taps in y and in x and the trivial kernel `{1}` in z, on an
+    `nz × ny × nx` image -/
+def sepConvYX (ny nx : Nat) (cm c0 cp : Rat) (x : Img) : Img :=
+  conv3Axis nx 1 cm c0 cp (conv3Axis ny nx cm c0 cp x)
+
 /-! ## a concrete objective function: Poisson log-likelihood with explicit system matrix + quadratic prior -/
 
 /-- one bin: its viewgram (for the per-viewgram threshold of `divide_and_truncate`), its subset, measured counts, additive
@@ -212,7 +324,15 @@ structure Row where
   y : Rat
   add : Rat
   elems : List (Nat × Rat)
+  /-- the normalisation factor of the bin (`BinNormalisationFromProjData`: the value of the normalisation data; 1 = trivial) -/
+  norm : Rat := 1
+  /-- first or last axial position of segment 0 and `zero_seg0_end_planes` is set -/
+  zeroed : Bool := false
   deriving Repr, Inhabited
+
+/-- the bin's value in the `mult_viewgrams` of `distributable.cxx: get_viewgrams`: ones, `normalisation->undo` (divide by the
+    factor), end planes of segment 0 zeroed.  (Trivial normalisation and no zeroing: no mult viewgrams, `- 1`.) -/
+def Row.mult (r : Row) : Rat := if r.zeroed then 0 else 1 / r.norm
 
 /-- `QuadraticPrior` (+ the test double of the harness that makes the curvature image dependent) -/
 structure Prior where
@@ -241,6 +361,11 @@ structure Problem where
   prior : Option Prior
   /-- a prior object that is not a `PriorWithParabolicSurrogate` -/
   priorNotParabolic : Bool
+  /-- `use_subset_sensitivities` -/
+  useSubsetSens : Bool := true
+  /-- TOF data without `use time-of-flight sensitivities`: the rows (subset, normalisation factor, zeroed, elements) of the
+      non-TOF matrix of the cloned back projector the sensitivity is computed with; `none`: the data's own rows -/
+  sensRows : Option (Array Row) := none
   deriving Repr, Inhabited
 
 def Problem.nvox (q : Problem) : Nat := q.nz * q.ny * q.nx
@@ -277,32 +402,62 @@ def smallValueOf (m : Array (Option Rat)) (vg : Nat) (sn : Rat) : Rat :=
   | none => 0
 
 /-- `actual_compute_subset_gradient_without_penalty(…, add_sensitivity = false)` via
-    `RPC_process_related_viewgrams_gradient<false>`: for every bin of the subset
-    `back_project( divide_and_truncate(y, forward_project(x) + additive) - 1 )` -/
+    `RPC_process_related_viewgrams_gradient<false>`: for every bin of the subset (every TOF bin)
+    `back_project( divide_and_truncate(y, forward_project(x) + additive) - mult )`, where `get_viewgrams` has set data,
+    additive term and mult of a zeroed end plane to 0 (so the per-viewgram maximum is taken over the other bins) -/
 def Problem.gradLik (q : Problem) (subset : Int) (x : Array Rat) : Array Rat :=
-  let ymax := viewgramMax q (fun r => r.y)
+  let ymax := viewgramMax q (fun r => if r.zeroed then 0 else r.y)
   q.rows.foldl (fun out r =>
     if r.subset != subset then out
     else
-      let den := r.forward x + r.add
-      let quot := divideAndTruncate (smallValueOf ymax r.vg SMALL_NUM) r.y den
-      r.backInto (quot - 1) out) (Array.replicate q.nvox 0)
+      let y := if r.zeroed then 0 else r.y
+      let add := if r.zeroed then 0 else r.add
+      let den := r.forward x + add
+      let quot := divideAndTruncate (smallValueOf ymax r.vg SMALL_NUM) y den
+      r.backInto (quot - r.mult) out) (Array.replicate q.nvox 0)
 
 /-- `add_multiplication_with_approximate_Hessian_without_penalty(output = 0, input = ones)`: for every subset and every
-    bin of it `output -= back_project( divide_and_truncate(forward_project(ones), y) )` (normalisation 1) -/
+    bin of it (every TOF bin) `output -= back_project( divide_and_truncate(forward_project(ones), y·n·n) )` — the data with the
+    normalisation applied twice (l.1010, l.1014).  The viewgrams are read directly: `zero_seg0_end_planes` is NOT applied here,
+    the end planes of segment 0 take part (known finding `hessian:ignores-zero-seg0-end-planes` of C05;
+    `denominator:includes-zeroed-seg0-end-planes` here). -/
 def Problem.hessOnes (q : Problem) : Array Rat :=
   let ones : Array Rat := Array.replicate q.nvox 1
   let fmax := viewgramMax q (fun r => r.forward ones)
   q.rows.foldl (fun out r =>
     if r.subset < 0 || r.subset ≥ q.numSubsets then out
     else
-      let quot := divideAndTruncate (smallValueOf fmax r.vg SMALL_NUM) (r.forward ones) r.y
+      let quot := divideAndTruncate (smallValueOf fmax r.vg SMALL_NUM) (r.forward ones) (r.y * r.norm * r.norm)
       r.backInto (-quot) out) (Array.replicate q.nvox 0)
 
-/-- the sensitivity image for normalisation 1: back projection of ones over all bins of all subsets, Σ_b P_bj -/
+/-- the sensitivity image (`add_subset_sensitivity` for every subset, `RPC_process_related_viewgrams_sensitivity_computation`:
+    back projection of the mult viewgrams): Σ_b P_bj mult_b over all bins of all subsets — of the data's own matrix, or of the
+    non-TOF matrix when the data are TOF and `use time-of-flight sensitivities` is off.  With `use_subset_sensitivities` off
+    the subset sensitivities are accumulated into one image right away: the same sum. -/
 def Problem.sensitivity (q : Problem) : Array Rat :=
-  q.rows.foldl (fun out r => if r.subset < 0 || r.subset ≥ q.numSubsets then out else r.backInto 1 out)
+  (q.sensRows.getD q.rows).foldl (fun out r => if r.subset < 0 || r.subset ≥ q.numSubsets then out else r.backInto r.mult out)
     (Array.replicate q.nvox 0)
+
+/-- number of viewgrams (view, segment[, TOF bin]) in every subset.  (`actual_subsets_are_approximately_balanced` counts, per
+    subset, the view/segments related to the basic ones of the subset; that these are the view/segments whose bins carry the
+    subset's number is C06's subject.  With TOF every view/segment counts once per TOF bin in every subset alike.) -/
+def Problem.viewgramsPerSubset (q : Problem) : Array Nat :=
+  let vgSubset : Array (Option Int) :=
+    q.rows.foldl (fun m r => m.modify r.vg (fun _ => some r.subset)) (Array.replicate q.numViewgrams none)
+  vgSubset.foldl (fun c o =>
+    match o with
+    | some s => if 0 ≤ s && s < q.numSubsets then c.modify s.toNat (· + 1) else c
+    | none => c) (Array.replicate q.numSubsets.toNat 0)
+
+/-- `actual_subsets_are_approximately_balanced` (PoissonLogLikelihoodWithLinearModelForMeanAndProjData.cxx:494):
+    every subset has as many view/segments as subset 0 -/
+def Problem.balanced (q : Problem) : Bool :=
+  let c := q.viewgramsPerSubset
+  c.all (fun n => n == c.getD 0 0)
+
+/-- `PoissonLogLikelihoodWithLinearModelForMean::set_up` (:275): unbalanced subsets are refused unless
+    `use_subset_sensitivities` is on -/
+def Problem.setUpOk (q : Problem) : Bool := q.balanced || q.useSubsetSens
 
 /-- sensitivity == 0 (`PoissonLogLikelihoodWithLinearModelForMean::fill_nonidentifiable_target_parameters` tests
     `*sens_iter == 0`); matrix rows may contain elements whose value is 0 -/
@@ -376,6 +531,7 @@ def Problem.toObjectiveWith (q : Problem) (hess : Img) (mask : List Bool) : Obje
   curv := fun x => (q.curv x.toArray).toList
   curvDepends := match q.prior with | some pr => pr.depends | none => true
   fillNonIdent := fillMask mask
+  setUpOk := q.setUpOk
 
 /-- the problem as `OSSPSReconstruction` sees it -/
 def Problem.toObjective (q : Problem) : Objective := q.toObjectiveWith q.hessOnes.toList q.nonIdent.toList
